@@ -221,12 +221,12 @@ func (s *Scheduler) killAll() {
 	s.killed = true
 	for _, g := range s.gs {
 		if g != s.main && !g.done {
-			select {
-			case g.resume <- struct{}{}:
-				<-s.main.resume
-			default:
-				// never started waiting (cannot happen: every goroutine parks on resume)
-			}
+			// every goroutine that is not done is parked on its resume channel or about
+			// to park there (a freshly created one): a blocking send reaches it. (A
+			// non-blocking send missed goroutines created just before the path ended —
+			// timers above all — and leaked them.)
+			g.resume <- struct{}{}
+			<-s.main.resume
 		}
 	}
 }
